@@ -432,10 +432,35 @@ func (x *Exec) evalModuleCall(o *types.Func, recvExpr ast.Expr, call *ast.CallEx
 			if !ok {
 				unsup("lat of non-list")
 			}
+			idx := x.evalInt(call.Args[1], st)
 			if !l.allPresent() {
+				// slots 0..k unconditionally present: the k-th element is slot k
+				if idx.isConst() {
+					k := int(idx.Int.Int64())
+					ok := k >= 0 && k < len(l.Elems)
+					if ok {
+						var cs []*Term
+						for i := 0; i <= k; i++ {
+							cs = append(cs, l.cond(i))
+						}
+						sm := x.specMode
+						x.specMode = 0
+						gu := x.ghostUnit
+						x.ghostUnit = false
+						x.oblige("assert", st, mkAnd(cs...), call, "lat: the list has at least "+fmt.Sprint(k+1)+" elements")
+						x.specMode = sm
+						x.ghostUnit = gu
+						st.assume(mkAnd(cs...))
+					}
+					if ok {
+						if b, isB := l.Elems[k].(*BoxV); isB {
+							return b.V
+						}
+						return l.Elems[k]
+					}
+				}
 				unsup("lat on a list with conditionally present elements")
 			}
-			idx := x.evalInt(call.Args[1], st)
 			var elems []Value
 			for _, e := range l.Elems {
 				if b, ok := e.(*BoxV); ok {
